@@ -670,6 +670,13 @@ func c05R6(c *Ctx, rule string) {
 		why = "handed " + Expr(arg)
 	}
 	c.Check(ok, rule, "deplex hands buf[:n] of each read to the session once", c.atFn(dp), "recvDataFromRemote(buf[:n]) after conn.Read(buf)", "the bytes handed to the session are not exactly what the read returned: "+why)
+	// … and only of a read that succeeded: the connections are record-oriented, a count that comes with an error is a
+	// record cut short (connection lost inside a body, message larger than the buffer), not a message
+	if rd != nil && len(recvs) == 1 {
+		errV := extractOf(rd, 1)
+		okErr := errV != nil && errIsNilAt(errV, recvs[0]) == "nil"
+		c.Check(okErr, rule, "deplex hands over nothing from a read that reported an error", c.at(recvs[0]), "the hand-over is behind err == nil of the read", "the bytes of a read that returned an error reach the session: a record cut short by a connection loss (or an oversized message) is parsed as a frame — under the plain method nothing rejects it")
+	}
 	data := ssa.Value(send.Params[1])
 	okSend := true
 	n := 0
